@@ -227,6 +227,7 @@ _loaded = {}
 
 
 _EXPECTED_ADTS = None
+_RENAMES = {}      # moved types of the analysed crates: definition path in this tree -> the path the rules know (applied to every fact file)
 
 
 def _expected_adts():
@@ -239,6 +240,11 @@ def _expected_adts():
             for fn in os.listdir(root):
                 if fn.endswith(".py"):
                     found |= set(_re.findall(r'"(scale_info(?:_derive)?(?:::[A-Za-z_][A-Za-z0-9_]*)+)"', open(os.path.join(root, fn)).read()))
+        # ... and every type of the two crates as they were laid out when the rules were written (rules build some names by concatenation)
+        try:
+            found |= set(json.load(open(os.path.join(VERIF, "rules", "lib", "known_adts.json"))))
+        except OSError:
+            pass
         _EXPECTED_ADTS = found
     return _EXPECTED_ADTS
 
@@ -275,7 +281,7 @@ def canonical_paths(txt, crate):
     out.append(txt[i:])
     txt = "".join(out)
     # (2) moved types
-    adts = set(_re.findall(r'"path": "(%s(?:::[A-Za-z_][A-Za-z0-9_]*)+)", "kind": "(?:struct|enum|union)"' % _re.escape(crate), txt))
+    adts = set(_re.findall(r'"path":\s*"(%s(?:::[A-Za-z_][A-Za-z0-9_]*)+)",\s*"kind":\s*"(?:struct|enum|union)"' % _re.escape(crate), txt))
     if adts:
         for e in sorted(_expected_adts()):
             if not e.startswith(crate + "::") or e in adts:
@@ -283,12 +289,20 @@ def canonical_paths(txt, crate):
             mod_, _, name = e.rpartition("::")
             cands = [a for a in adts if a.rsplit("::", 1)[-1] == name and a.startswith(mod_ + "::")]
             if len(cands) == 1 and ('"%s::' % e) not in txt and ('"%s"' % e) not in txt:
-                txt = _re.sub(r"(?<![A-Za-z0-9_:])%s(?![A-Za-z0-9_])" % _re.escape(cands[0]), e, txt)
+                _RENAMES[cands[0]] = e
+    for old_, new_ in _RENAMES.items():
+        if old_ in txt:
+            txt = _re.sub(r"(?<![A-Za-z0-9_:])%s(?![A-Za-z0-9_])" % _re.escape(old_), new_, txt)
     return txt
 
 
 def load_json_canonical(path, crate="scale_info"):
     """a fact file of another crate that refers to the analysed ones (the derive corpus), with the same canonical definition paths"""
+    load_mir(CONFIGS["default"])        # the analysed crate first: it determines which of its types have moved
+    try:
+        load_mir(CONFIGS["all"], "scale_info_derive")
+    except EngineError:
+        pass
     with open(path) as f:
         return json.loads(canonical_paths(f.read(), crate))
 
